@@ -3,7 +3,7 @@
 
 use crate::deliver::{DeliveryCtx, Expect, RunOut};
 use crate::json::show_bytes;
-use crate::libi::{self, classify, kind_for_rule, taxonomy, Answer, EvKind, ValOut};
+use crate::libi::{self, classify, Answer, EvKind, ValOut};
 use crate::refm::{self, Rule, Verdict};
 use crate::world::*;
 use bytes::Bytes;
@@ -314,72 +314,6 @@ pub fn judge_c05(cx: &DeliveryCtx, out: &mut RunOut) {
     }
 }
 
-/// C13: precedence and taxonomy.
-pub fn judge_c13(cx: &DeliveryCtx, out: &mut RunOut) {
-    if !finished(cx) {
-        return;
-    }
-    if let Some(e) = cx.out.err() {
-        // taxonomy of *every* error observed
-        if e.kind == "foreign" {
-            // only a body transport error may come back as a non-SignatureError (outside the statement)
-            if !e.display.starts_with("BODY-TRANSPORT") {
-                out.violate("C13", "every-failure-is-a-signature-error", format!("non-SignatureError failure: {}; {}", cx.out.short(), ctx_line(cx)));
-            }
-        } else {
-            match taxonomy(e.kind) {
-                Some((code, status)) => {
-                    if e.code != code || e.status != status {
-                        out.violate("C13", "kind-fixes-code-and-status", format!("{} came with code {} status {} (documented: {} {}); {}", e.kind, e.code, e.status, code, status, ctx_line(cx)));
-                    }
-                }
-                None => out.violate("C13", "kind-fixes-code-and-status", format!("unknown error kind {}; {}", e.kind, ctx_line(cx))),
-            }
-            if ![400, 403, 500].contains(&e.status) {
-                out.violate("C13", "status-is-400-403-500", format!("status {}; {}", e.status, ctx_line(cx)));
-            }
-            if e.status == 500 {
-                let provider_infra = matches!(cx.script.answer, Answer::Foreign(_)) || matches!(cx.script.ready_err, Some(Answer::Foreign(_))) || cx.events.iter().any(|ev| matches!(ev.kind, EvKind::FutPoll { result: "err" } | EvKind::PollReady { result: "err" }));
-                if !provider_infra {
-                    out.violate("C13", "500-only-for-provider-failure", format!("500 without a provider failure: {}; {}", cx.out.short(), ctx_line(cx)));
-                }
-            }
-        }
-    }
-    if let Verdict::Refuse(r) = cx.expected {
-        let n = cx.msg.provenance.iter().filter(|s| matches!(s.label, Label::Defect(_))).count();
-        if n >= 2 {
-            let mut rules: Vec<&'static str> = cx.msg.provenance.iter().filter_map(|s| match s.label { Label::Defect(r) => Some(r.name()), _ => None }).collect();
-            rules.sort();
-            rules.dedup();
-            if rules.len() >= 2 {
-                out.probe(&format!("defect_pair[{}+{}]", rules[0], rules[1]));
-            }
-        }
-        if *r == Rule::Provider || r.precedence().is_none() {
-            return;
-        }
-        match cx.out {
-            ValOut::Err(e) => {
-                let want = kind_for_rule(*r).unwrap();
-                if e.kind != want {
-                    out.violate("C13", "earliest-failing-check-reported", format!("reference: refused at {} ({}), library: {}; {}", r.name(), want, cx.out.short(), ctx_line(cx)));
-                } else {
-                    let c = classify(e);
-                    if c.is_empty() {
-                        out.probe("error_message_unclassified");
-                    } else if !c.contains(r) {
-                        out.violate("C13", "earliest-failing-check-reported", format!("reference: refused at {}, library's message belongs to {:?}: {}; {}", r.name(), c.iter().map(|x| x.name()).collect::<Vec<_>>(), cx.out.short(), ctx_line(cx)));
-                    } else {
-                        out.probe(&format!("rule_reported[{}]", r.name()));
-                    }
-                }
-            }
-            _ => {}
-        }
-    }
-}
-
 /// C15: pass-through of parts, body and identity.
 pub fn judge_c15(cx: &DeliveryCtx, out: &mut RunOut) {
     let ret = match cx.out {
@@ -460,6 +394,7 @@ pub fn judge_c15(cx: &DeliveryCtx, out: &mut RunOut) {
     }
 }
 
+#[allow(dead_code)]
 pub struct LibCanon {
     pub path: String,
     pub query: String,
